@@ -4,8 +4,94 @@
 
 package binpatch
 
+//@ macro repOK(p *PatchSet) bool = len(p.Patches) == len(p.Blobs) && forall(i, 0, len(p.Patches), p.Patches[i].NewSize == len(p.Blobs[i]))
+//@ macro rangesOK(p *PatchSet) bool = forall(i, 0, len(p.Patches), 0 <= p.Patches[i].Offset && p.Patches[i].Offset + p.Patches[i].OldSize <= 4611686018427387904)
+//@ spec func fillers(s int) int = ite(s <= 4294967295, 0, (s - 1) / 4294967295)
+//@
+//@ func New
+//@   property C12
+//@   ensures @empty_patch_set ret0 != nil && len(ret0.Patches) == 0 && len(ret0.Blobs) == 0
+//@   fresh ret0
+//@
+//@ func (*PatchSet).Add
+//@   property C12
+//@   requires repOK(p)
+//@   requires offset >= 0 && oldSize >= 0 && offset + oldSize <= 4611686018427387904 && len(blob) <= 4294967295
+//@   requires rangesOK(p)
+//@   loop 0 sig "for oldSize > uint32Max" invariant len(p.Patches) == len(p.Blobs) && len(p.Patches) >= old(len(p.Patches)) && oldSize >= 0 && \
+//@        offset == old(offset) + (len(p.Patches) - old(len(p.Patches))) * 4294967295 && \
+//@        oldSize == old(oldSize) - (len(p.Patches) - old(len(p.Patches))) * 4294967295
+//@   loop 0 invariant (len(p.Patches) > old(len(p.Patches)) ==> oldSize > 0) && \
+//@        (samearr(p.Patches, old(p.Patches)) || allocated(p.Patches)) && (samearr(p.Blobs, old(p.Blobs)) || allocated(p.Blobs))
+//@   loop 0 invariant @earlier_entries_untouched forall(j, 0, old(len(p.Patches)), p.Patches[j].Offset == old(p.Patches[j].Offset) && \
+//@        p.Patches[j].OldSize == old(p.Patches[j].OldSize) && p.Patches[j].NewSize == old(p.Patches[j].NewSize) && sameslice(p.Blobs[j], old(p.Blobs[j])))
+//@   loop 0 invariant @fillers_so_far forall(j, old(len(p.Patches)), len(p.Patches), p.Patches[j].Offset == old(offset) + (j - old(len(p.Patches))) * 4294967295 && \
+//@        p.Patches[j].OldSize == 4294967295 && p.Patches[j].NewSize == 0 && len(p.Blobs[j]) == 0)
+//@   ensures @representation_invariant repOK(p)
+//@   ensures @ranges_stay_within_bounds rangesOK(p)
+//@   ensures @coalesced_into_the_last_entry old(coalesces(p, offset, oldSize, blob)) ==> len(p.Patches) == old(len(p.Patches)) && \
+//@        p.Patches[len(p.Patches)-1].Offset == old(p.Patches[len(p.Patches)-1].Offset) && \
+//@        p.Patches[len(p.Patches)-1].OldSize == old(p.Patches[len(p.Patches)-1].OldSize) + oldSize && \
+//@        p.Patches[len(p.Patches)-1].NewSize == old(p.Patches[len(p.Patches)-1].NewSize) + len(blob)
+//@   ensures @coalesced_blob_is_the_concatenation old(coalesces(p, offset, oldSize, blob)) ==> \
+//@        forall(k, 0, old(len(p.Blobs[len(p.Blobs)-1])), p.Blobs[len(p.Blobs)-1][k] == old(p.Blobs[len(p.Blobs)-1][k])) && \
+//@        forall(k, 0, len(blob), p.Blobs[len(p.Blobs)-1][old(len(p.Blobs[len(p.Blobs)-1])) + k] == old(blob[k]))
+//@   ensures @coalescing_leaves_earlier_entries old(coalesces(p, offset, oldSize, blob)) ==> forall(j, 0, len(p.Patches) - 1, \
+//@        p.Patches[j].Offset == old(p.Patches[j].Offset) && p.Patches[j].OldSize == old(p.Patches[j].OldSize) && \
+//@        p.Patches[j].NewSize == old(p.Patches[j].NewSize) && sameslice(p.Blobs[j], old(p.Blobs[j])))
+//@   ensures @appended_with_fillers !old(coalesces(p, offset, oldSize, blob)) ==> len(p.Patches) == old(len(p.Patches)) + fillers(oldSize) + 1 && \
+//@        p.Patches[len(p.Patches)-1].Offset == offset + fillers(oldSize) * 4294967295 && \
+//@        p.Patches[len(p.Patches)-1].OldSize == oldSize - fillers(oldSize) * 4294967295 && \
+//@        p.Patches[len(p.Patches)-1].NewSize == len(blob) && sameslice(p.Blobs[len(p.Blobs)-1], blob)
+//@   ensures @fillers_cover_the_oversized_range !old(coalesces(p, offset, oldSize, blob)) ==> forall(j, old(len(p.Patches)), len(p.Patches) - 1, \
+//@        p.Patches[j].Offset == offset + (j - old(len(p.Patches))) * 4294967295 && p.Patches[j].OldSize == 4294967295 && p.Patches[j].NewSize == 0)
+//@   ensures @appending_leaves_earlier_entries !old(coalesces(p, offset, oldSize, blob)) ==> forall(j, 0, old(len(p.Patches)), \
+//@        p.Patches[j].Offset == old(p.Patches[j].Offset) && p.Patches[j].OldSize == old(p.Patches[j].OldSize) && \
+//@        p.Patches[j].NewSize == old(p.Patches[j].NewSize) && sameslice(p.Blobs[j], old(p.Blobs[j])))
+//@   modifies p.Patches, p.Blobs, mem(p.Patches), mem(p.Blobs)
+//@
+//@ macro coalesces(p *PatchSet, offset int64, oldSize int64, blob []byte) bool = len(p.Patches) > 0 && \
+//@        offset == p.Patches[len(p.Patches)-1].Offset + p.Patches[len(p.Patches)-1].OldSize && \
+//@        p.Patches[len(p.Patches)-1].OldSize + oldSize <= 4294967295 && len(p.Blobs[len(p.Blobs)-1]) + len(blob) <= 4294967295
+//@
+//@ func (sorter).Len
+//@   property C12
+//@   ensures ret0 == len(s.p.Patches)
+//@   modifies nothing
+//@
+//@ func (sorter).Less
+//@   property C12
+//@   ensures @orders_by_offset ret0 == (s.p.Patches[i].Offset < s.p.Patches[j].Offset)
+//@   modifies nothing
+//@
+//@ func (sorter).Swap
+//@   property C12
+//@   requires 0 <= i && i < len(s.p.Patches) && 0 <= j && j < len(s.p.Patches) && len(s.p.Patches) == len(s.p.Blobs)
+//@   ensures @header_and_blob_swapped_together s.p.Patches[i].Offset == old(s.p.Patches[j].Offset) && s.p.Patches[j].Offset == old(s.p.Patches[i].Offset) && \
+//@        s.p.Patches[i].OldSize == old(s.p.Patches[j].OldSize) && s.p.Patches[j].OldSize == old(s.p.Patches[i].OldSize) && \
+//@        s.p.Patches[i].NewSize == old(s.p.Patches[j].NewSize) && s.p.Patches[j].NewSize == old(s.p.Patches[i].NewSize) && \
+//@        sameslice(s.p.Blobs[i], old(s.p.Blobs[j])) && sameslice(s.p.Blobs[j], old(s.p.Blobs[i]))
+//@   ensures @other_entries_untouched forall(k, 0, len(s.p.Patches), k != i && k != j ==> s.p.Patches[k].Offset == old(s.p.Patches[k].Offset) && \
+//@        s.p.Patches[k].OldSize == old(s.p.Patches[k].OldSize) && s.p.Patches[k].NewSize == old(s.p.Patches[k].NewSize) && sameslice(s.p.Blobs[k], old(s.p.Blobs[k])))
+//@   modifies mem(s.p.Patches), mem(s.p.Blobs)
+
 //@ func (*PatchSet).Apply
-//@   property C13
+//@   property C13 C12
+//@   requires repOK(p)
+//@   loop 0 sig "for i, patch := range p.Patches" invariant -1 <= rangeindex && rangeindex < len(p.Patches)
+//@   loop 0 invariant @all_but_possibly_the_last_preserve_size rangesOK(p) && purecalli("invoke io/fs.FileInfo.Size", statInfo) >= 0 ==> \
+//@        forall(j, 0, rangeindex + 1, p.Patches[j].OldSize == p.Patches[j].NewSize || \
+//@             (j == len(p.Patches) - 1 && p.Patches[j].Offset + p.Patches[j].OldSize == purecalli("invoke io/fs.FileInfo.Size", statInfo) && size == p.Patches[j].Offset + p.Patches[j].NewSize))
+//@   loop 0 invariant rangesOK(p) && purecalli("invoke io/fs.FileInfo.Size", statInfo) >= 0 ==> ((rangeindex < len(p.Patches) - 1 || len(p.Patches) == 0 || p.Patches[len(p.Patches)-1].OldSize == p.Patches[len(p.Patches)-1].NewSize) ==> size == purecalli("invoke io/fs.FileInfo.Size", statInfo))
+//@   loop 1 sig "for i, patch := range p.Patches" invariant -1 <= rangeindex && rangeindex < len(p.Patches)
+//@   before call (*os.File).WriteAt(_, b, off): assert @in_place_only_if_every_patch_but_the_last_preserves_size rangesOK(p) && purecalli("invoke io/fs.FileInfo.Size", statInfo) >= 0 ==> \
+//@        forall(j, 0, len(p.Patches) - 1, p.Patches[j].OldSize == p.Patches[j].NewSize) && \
+//@        (len(p.Patches) == 0 || p.Patches[len(p.Patches)-1].OldSize == p.Patches[len(p.Patches)-1].NewSize || \
+//@             p.Patches[len(p.Patches)-1].Offset + p.Patches[len(p.Patches)-1].OldSize == purecalli("invoke io/fs.FileInfo.Size", statInfo))
+//@   before call (*os.File).WriteAt(_, b, off): assert @each_blob_written_at_its_offset sameslice(b, p.Blobs[i]) && off == p.Patches[i].Offset
+//@   before call (*os.File).Truncate(_, sz): assert @final_length_is_old_length_plus_growth rangesOK(p) && purecalli("invoke io/fs.FileInfo.Size", statInfo) >= 0 ==> \
+//@        sz == ite(len(p.Patches) > 0 && p.Patches[len(p.Patches)-1].OldSize != p.Patches[len(p.Patches)-1].NewSize, \
+//@             p.Patches[len(p.Patches)-1].Offset + p.Patches[len(p.Patches)-1].NewSize, purecalli("invoke io/fs.FileInfo.Size", statInfo))
 //@   ghost canOW bool = false
 //@   ghost statInfo os.FileInfo = nil
 //@   ghost lstatInfo os.FileInfo = nil
@@ -19,7 +105,16 @@ package binpatch
 //@   before call (*os.File).Truncate(f, _): assert @truncate_only_when_provably_safe canOW && f == infile && !rewritten
 //@
 //@ func (*PatchSet).applyRewrite
-//@   property C13
+//@   property C13 C12
+//@   requires repOK(p)
+//@   loop 0 invariant -1 <= rangeindex && rangeindex < len(p.Patches)
+//@   loop 0 invariant @input_position_follows_the_patches rangesOK(p) ==> pos >= 0 && \
+//@        (rangeindex >= 0 ==> pos == p.Patches[rangeindex].Offset + p.Patches[rangeindex].OldSize) && (rangeindex == -1 ==> pos == 0)
+//@   loop 0 invariant @patches_in_ascending_disjoint_order rangesOK(p) ==> forall(j, 1, rangeindex + 1, p.Patches[j].Offset >= p.Patches[j-1].Offset + p.Patches[j-1].OldSize)
+//@   before call io.CopyN(_, src, n): assert @copies_exactly_the_gap_before_the_patch src == iface(infile) && (rangesOK(p) ==> n == p.Patches[i].Offset - pos && n > 0)
+//@   before call (*os.File).Seek(f, d, w): assert @skips_exactly_the_replaced_bytes w == 0 || (w == 1 && d == p.Patches[i].OldSize && f == infile)
+//@   before call invoke atomicfile.AtomicFile.Write(_, b): assert @writes_the_replacement sameslice(b, p.Blobs[i])
+//@   ensures @out_of_order_patches_are_refused ret0 == nil && rangesOK(p) ==> forall(j, 1, len(p.Patches), p.Patches[j].Offset >= p.Patches[j-1].Offset + p.Patches[j-1].OldSize)
 //@   ghost open bool = false
 //@   ghost committed bool = false
 //@   ghost failed bool = false
@@ -34,3 +129,24 @@ package binpatch
 //@   loop 0 sig "for i, patch := range p.Patches" invariant !failed
 //@   ensures @no_temp_file_left !open
 //@   ensures @success_means_committed ret0 == nil ==> committed
+//@
+//@ func Load
+//@   property C12
+//@   ghost hdrOK bool = false
+//@   ghost entriesOK bool = false
+//@   on call encoding/binary.Read(_, _, d) ret (e): hdrOK = hdrOK || (e == nil && d == iface(addr(h))); \
+//@        entriesOK = (hdrOK && e == nil && !(d == iface(addr(h))))
+//@   loop 0 sig "for i, hdr := range p.Patches" invariant -1 <= rangeindex && rangeindex < len(p.Patches) && len(p.Patches) == len(p.Blobs) && \
+//@        allocated(p.Blobs) && forall(j, 0, rangeindex + 1, len(p.Blobs[j]) == p.Patches[j].NewSize)
+//@   ensures @loaded_set_is_well_formed ret1 == nil ==> ret0 != nil && repOK(ret0)
+//@   ensures @loaded_count_is_the_header_count ret1 == nil ==> len(ret0.Patches) == h.NumPatches && h.Version == 1
+//@   ensures @header_and_entries_were_read ret1 == nil ==> hdrOK && entriesOK
+//@   ensures @nothing_returned_on_error ret1 != nil ==> ret0 == nil
+//@
+//@ func canOverwrite
+//@   property C13 C12
+//@   modifies nothing
+//@
+//@ func hasLinks
+//@   property C13 C12
+//@   modifies nothing
